@@ -34,8 +34,9 @@ def Gm.valid (g : Gm) (st : Step) : Bool :=
              else ((g.out.getD (b * g.amax + st.a) []).any (fun oc => oc.1 == b1 && oc.2.1 == st.o && oc.2.2 == st.r))
   tOk && oOk && (st.term == g.isTerm st.s1) && decide (st.s < g.nS) && decide (st.a < g.amax)
 
-def Gm.mdl (g : Gm) : Mdl :=
+def Gm.mdl (g : Gm) (explPos : Bool) : Mdl :=
   { pomcp := g.kind == 2,
+    explPos := explPos,
     gamma := g.gamma,
     rollOff := if g.kind == 2 then Gen.C19.pomcpRollOff else Gen.C19.mctsRollOff,
     rollGuard := Gen.C19.pomcpRollGuard,
@@ -236,10 +237,10 @@ def emptyTree : Tree := Tree.fresh [] 0 0
 
 def run : P String := do
   let g ← pGm
-  let _expl ← P.bool; let _extra ← P.nat
+  let expl ← P.bool; let _extra ← P.nat
   let calls ← pCalls 64
   P.eof
-  let m := g.mdl
+  let m := g.mdl expl
   let st0 : St := { t := emptyTree, prev := [], budget := 0, rootStates := [], diffs := [], fails := [], sims := 0 }
   let st := calls.foldl (runCall g m) st0
   let v : Verdict := { tag := (if st.sims == 0 then "trivial" else comp g), diffs := st.diffs, fails := st.fails }
@@ -254,6 +255,9 @@ def hz : P String := do
   let worst := ts.foldl (fun w t => if t - rootT > w then t - rootT else w) 0
   let v : Verdict := { tag := if ts.isEmpty then "trivial" else "hz" }
   let v := v.failIf (ts.any (fun t => t < rootT)) s!"{cn} call_above_root"
+  -- an excess of up to two steps is the recorded rollout-length defect; anything beyond is a different failure
+  let v := v.failIf (worst ≥ h + 2 && !ts.isEmpty) s!"{cn} depth_exceeds_horizon_by_3_or_more horizon={h} deepest_call_depth={worst} iters={iters}"
+  let v := v.failIf (ts.length > (h + 2) * iters) s!"{cn} depth_exceeds_horizon_by_3_or_more total_calls={ts.length} > (horizon+2)*iterations"
   let v := v.failIf (worst ≥ h && !ts.isEmpty) s!"{cn} depth_exceeds_horizon horizon={h} deepest_call_depth={worst} (allowed < {h}) iters={iters}"
   let v := v.failIf (ts.length > h * iters) s!"{cn} depth_exceeds_horizon total_calls={ts.length} > horizon*iterations={h * iters}"
   return v.render
@@ -263,6 +267,7 @@ def hzp : P String := do
   let kind ← P.nat; let h ← P.nat; let iters ← P.nat; let n ← P.nat; P.eof
   let cn := if kind == 2 then "POMCP" else if kind == 3 then "rPOMCP" else "MCTS"
   let v : Verdict := { tag := if n == 0 then "trivial" else "hzp" }
+  let v := v.failIf (n > (h + 2) * iters) s!"{cn} depth_exceeds_horizon_by_3_or_more total_calls={n} > (horizon+2)*iterations"
   let v := v.failIf (n > h * iters) s!"{cn} depth_exceeds_horizon total_calls={n} > horizon*iterations={h * iters}"
   return v.render
 
